@@ -102,7 +102,7 @@ impl Clone for DalekSignature {
     fn clone(&self) -> (r: Self) ensures r == *self { unimplemented!() }
 }
 impl Copy for DalekSignature {}
-pub struct Transaction { pub t: u64 }
+pub struct Transaction { pub t: u64, pub offset: BlindingFactor }
 pub struct SlatepackAddress { pub pub_key: DalekPublicKey }
 impl Clone for SlatepackAddress { #[verifier::external_body] fn clone(&self) -> (r: Self) ensures r == *self { unimplemented!() } }
 
